@@ -181,6 +181,7 @@ class Sim:
         self.watched_hits = 0
         self.lock_contention = 0
         self.lock_seq = 0
+        self.quiet = 0          # >0: LINE events are not pre-emption points
         self.rmw_hits = 0
         self.on_switch = None      # optional hook(sim, frm, to)
         self.codes = []
@@ -241,7 +242,7 @@ class Sim:
     # -- pre-emption -----------------------------------------------------------
 
     def _on_line(self, code, lineno):
-        if not self.active:
+        if not self.active or self.quiet:
             return
         cur = self.current
         if cur is None or threading.get_ident() != cur.ident:
@@ -671,6 +672,20 @@ class Seams:
                     new, kind = SimLock(self.sim, f'{mname}.{k}'), 'lock_instance'
                 elif th is not None and isinstance(v, _RLockType):
                     new, kind = SimRLock(self.sim, f'{mname}.{k}'), 'lock_instance'
+                elif th is not None and not isinstance(v, (type, types.ModuleType,
+                                                           types.FunctionType)) \
+                        and getattr(type(v), '__module__', None) == mname \
+                        and isinstance(getattr(v, '__dict__', None), dict):
+                    # module-level singleton of a class defined here: locks it holds
+                    for ck, cv in list(v.__dict__.items()):
+                        if isinstance(cv, _LockType):
+                            self._set_item(v.__dict__, ck, cv,
+                                           SimLock(self.sim, f'{mname}.{k}.{ck}'))
+                            self.replaced['lock_instance'] += 1
+                        elif isinstance(cv, _RLockType):
+                            self._set_item(v.__dict__, ck, cv,
+                                           SimRLock(self.sim, f'{mname}.{k}.{ck}'))
+                            self.replaced['lock_instance'] += 1
                 elif isinstance(v, type) and getattr(v, '__module__', None) == mname \
                         and th is not None:
                     for ck, cv in list(vars(v).items()):
@@ -689,9 +704,16 @@ class Seams:
         setattr(holder, k, new)
         self._undo.append((holder, k, old))
 
+    def _set_item(self, d, k, old, new):
+        d[k] = new
+        self._undo.append((d, k, old))
+
     def uninstall(self):
         for holder, k, old in reversed(self._undo):
-            setattr(holder, k, old)
+            if isinstance(holder, dict):
+                holder[k] = old
+            else:
+                setattr(holder, k, old)
         self._undo = []
 
     def __enter__(self):
